@@ -168,7 +168,7 @@ def revalidate(out):
         attrs.evolve(node)
 
 
-def execute(sc, stats=None, only_policy=None, only_vals=None, real_set=False):
+def execute(sc, stats=None, only_policy=None, only_vals=None, real_set=False, trace=None):
     """Run one scenario. Returns list of violation dicts (possibly empty)."""
     from hpl.rewrite import simplify
     from hpl.ast.predicates import HplPredicate, HplPredicateExpression
@@ -217,6 +217,8 @@ def execute(sc, stats=None, only_policy=None, only_vals=None, real_set=False):
         except Exception as e:
             exc = e
         count('simplify_calls')
+        if trace is not None:
+            trace.append((pi, type(exc).__name__ if exc is not None else str(out), [p for _n, p in policy.observed] if policy is not None else None))
         if policy is not None:
             nperm = sum(1 for n, p in policy.observed if n >= 2)
             count('set_iterations', nperm)
@@ -280,6 +282,8 @@ def execute(sc, stats=None, only_policy=None, only_vals=None, real_set=False):
         ref_expr = root_expr(kind, build_input(kind, term))
         for vi, envd in enumerate(valuations):
             d, tag = judge_valuation(ref_expr, simp_expr, envd)
+            if trace is not None:
+                trace.append(tag)
             count('val_' + tag)
             count('evaluations')
             if d is not None:
@@ -337,7 +341,8 @@ def worker(job):
         seed = core.derive(job['master'], PROP, idx)
         sc = gen_scenario(seed, cfg)
         before = stats.get('inputs_changed', 0)
-        vs = execute(sc, stats, real_set=job.get('real_set', False))
+        tr = []
+        vs = execute(sc, stats, real_set=job.get('real_set', False), trace=tr)
         stats['runs'] = stats.get('runs', 0) + 1
         txt = repr(sc['term'])
         texts.add(txt)
@@ -346,7 +351,7 @@ def worker(job):
         if len(samples) < 2 and not gen.contains(sc['term'], 'callv'):
             samples.append({'run_index': idx, 'seed': seed, 'kind': sc['kind'], 'input': gen.render(sc['term']),
                             'policies': sc['policies'][:3], 'first_valuation': gen.valuation_to_json(sc['valuations'][0])})
-        digests.append((idx, sc['digest_gen']))
+        digests.append((idx, sc['digest_gen'], core.derive(repr(tr))))
         for v in vs:
             v['run_index'] = idx
             v['seed'] = seed
@@ -545,8 +550,8 @@ def main(argv):
             stats.setdefault('reject_samples', [])
             stats['reject_samples'] = (stats['reject_samples'] + r['stats']['reject_samples'])[:5]
     if args.digests:
-        for idx, d in sorted(digests):
-            print('DIGEST %d %s' % (idx, d))
+        for idx, d, e in sorted(digests):
+            print('DIGEST %d %s %x' % (idx, d, e))
 
     # hash-seed slices with the real set (thorough): validates that the seam models the real thing
     slice_info = []
